@@ -1,7 +1,85 @@
 import Mutagen.Driver.Util
+import Mutagen.Model.PollWatch
 namespace Mutagen.Driver.C42
+open Mutagen.Driver Mutagen.Model.PollWatch
 
-/-- Model-side handler for one line of the C42 correspondence stream. -/
-def handle (_line : String) : String := "unimplemented"
+/-!
+Trace validation. Line: `a=<0|1> d=<content> <event> …`
+
+* `E<c>` — another program changes the root to content `c`;
+* `S<f>:<c>` — `Scan(full=f)` returned a snapshot with content `c`;
+* `Tb<c>` / `Te<m>` — `Transition` towards content `c` called / returned
+  (`m`: its results differ from the old entries);
+* `Q1` — a poll signal was pending and was consumed; `Q0` — none was pending;
+* `W` — the harness waited several polling intervals: at least one polling
+  scan happened.
+
+Polling scans and the transition's disk mutation are invisible steps. The
+journal is accepted iff it is the visible trace of a run of the (repaired)
+model.
+-/
+
+def tauSteps (s : St) : List St :=
+  -- a polling scan can run at any time, also while a transition works with the
+  -- lock released
+  [tick s] ++ (transApply s).toList
+
+def insertNew (acc : List St) (s : St) : List St × Bool :=
+  if acc.contains s then (acc, false) else (s :: acc, true)
+
+def closure : Nat → List St → List St → List St
+  | 0, acc, _ => acc
+  | _, acc, [] => acc
+  | fuel + 1, acc, s :: work =>
+    let (acc, work) := (tauSteps s).foldl (init := (acc, work)) fun (acc, work) s' =>
+      let (acc', fresh) := insertNew acc s'
+      (acc', if fresh then s' :: work else work)
+    closure fuel acc work
+
+def closeSet (l : List St) : List St :=
+  let l := l.foldl (fun acc s => (insertNew acc s).1) []
+  closure 10000 l l
+
+def natOf (cs : List Char) : Option Nat := (String.ofList cs).toNat?
+
+def step (cur : List St) (tok : String) : Option (List St) :=
+  match tok.toList with
+  | 'E' :: cs => do
+    let c ← natOf cs
+    pure (closeSet (cur.map fun s => edit s c))
+  | 'S' :: f :: ':' :: cs => do
+    let c ← natOf cs
+    let full := f == '1'
+    pure (closeSet (cur.filterMap fun s =>
+      if s.trans.isSome then none else
+      let (s', sn) := scan s full
+      if sn.content == c then some s' else none))
+  | 'T' :: 'b' :: cs => do
+    let c ← natOf cs
+    pure (closeSet (cur.filterMap fun s => transBegin s c))
+  | ['T', 'e', m] =>
+    some (closeSet (cur.filterMap fun s =>
+      match transEnd s with
+      | some (s', made) => if made == (m == '1') then some s' else none
+      | none => none))
+  | ['Q', '1'] => some (closeSet (cur.filterMap pollReturn))
+  | ['Q', '0'] => some (closeSet (cur.filter fun s => !s.pending))
+  | ['W'] => some (closeSet (cur.map tick))
+  | _ => none
+
+def validate : List St → Nat → List String → String
+  | _, _, [] => "accept"
+  | cur, i, tok :: rest =>
+    match step cur tok with
+    | none => s!"bad-token@{i}:{tok}"
+    | some next => if next.isEmpty then s!"reject@{i}:{tok}" else validate next (i + 1) rest
+
+def handle (line : String) : String :=
+  match fields line with
+  | a :: d :: toks =>
+    match (d.drop 2).toString.toNat? with
+    | some d0 => validate (closeSet [init true (a == "a=1") d0]) 0 toks
+    | none => "bad-op"
+  | _ => "bad-op"
 
 end Mutagen.Driver.C42
